@@ -173,12 +173,18 @@ def oracle_stream(ctx, G, OFF):
         nver = r.choice([1, 2, 3])
         scenario = r.choice(["flip", "flip", "truncate", "other-file", "forged-with-our-key", "forged-with-our-key", "older-version", "mix",
                              "header-forgery", "header-forgery", "rehash-ownleaf", "rehash-ownleaf"])
+        if i < 2 or r.random() < 0.12:
+            # servers holding SEVERAL shares each: what the survey concludes about one share must not spill over to its neighbour
+            scenario = "multi-share-header-flip"
+            k, N, S = r.choice([(3, 10, 5), (3, 8, 4), (3, 6, 3), (4, 9, 3)])
         if scenario == "rehash-ownleaf":
             fmt = "sdmf"
             k, N = r.choice([(2, 3), (2, 4), (3, 5), (3, 3)])
             S = r.choice([N, N + 1])
         if scenario == "older-version" and nver == 1:
             nver = 2
+        if scenario == "multi-share-header-flip":
+            S = {(3, 10): 5, (3, 8): 4, (3, 6): 3, (4, 9): 3}[(k, N)]
         case = {"seed": seed, "k": k, "N": N, "servers": S, "format": fmt, "versions": nver, "scenario": scenario}
         with G.Grid(num_clients=2, num_servers=S, k=k, n=N, happy=1, seed=seed, timeout=240) as g:
             contents = [b"v%d-" % v + bytes([97 + v]) * r.randrange(1, 80) for v in range(1, nver + 1)]
@@ -208,6 +214,35 @@ def oracle_stream(ctx, G, OFF):
                 mdmf_off = {"k": (41, 42), "N": (42, 43), "segsize": (43, 51), "datalen": (51, 59)}
                 delta = r.choice([1, 1, 2, 255])
                 case["forged_field"] = fld
+            if scenario == "multi-share-header-flip":
+                # shares get a flipped byte in their signed header (root hash): directed -- on every server but one, every share
+                # except the one the server lists last; or a random one per server; at least k untouched shares always remain
+                byserver = {}
+                for sh in shs:
+                    byserver.setdefault(sh.server, []).append(sh)
+                spare = r.choice(sorted(byserver))
+                directed = r.random() < 0.7
+                si = g._si(node.get_uri())
+                victims = []
+                for srv in sorted(byserver):
+                    if srv == spare and len(byserver) > 1:
+                        continue
+                    lst = sorted(byserver[srv], key=lambda x: x.shnum)
+                    if directed:
+                        # every share of this server except the one it lists LAST in its answers
+                        order = list(g.server(srv).slot_readv(si, [], [(0, 1)]).keys())
+                        victims.extend(x for x in lst if x.shnum != order[-1])
+                    else:
+                        victims.append(r.choice(lst))
+                r.shuffle(victims)
+                while len(shs) - len(victims) < k:
+                    victims.pop()
+                for sh in victims:
+                    raw = g.read_share(sh)
+                    pos = OFF + 9 + r.randrange(32)
+                    g.write_share(sh, raw[:pos] + bytes([raw[pos] ^ 0x10]) + raw[pos + 1:])
+                    altered.add((sh.server, sh.shnum))
+                victims = []
             if scenario == "rehash-ownleaf":
                 # whether the forged share is accepted depends on WHICH share it is and on the order in which the k
                 # shares in use are validated: forge each share in turn (all others intact), one read each
